@@ -327,6 +327,7 @@ def queries(tier):
         # one collection x one packet size per handler, one process per family (split=False)
         qs += _h("block", "sparse", 8, 14, split=False)
         qs += _h("distributed", "sparse", 8, 14, split=False)
+        qs += _h("block", "pow2", 8, 14, split=False)
         qs += _h("mux", "sparse", 8, 14, split=False, cosim=200)
         qs += _h2("mux", 12, split=False)
         qs += _r(False, "sparse", 8, False, kfree=12, kdeep=24, pin=0x0100, split=False, cosim=200)
@@ -337,6 +338,8 @@ def queries(tier):
             qs += _h(v, k, 8, 18, split=True, cosim=500)
         qs += _h(v, "sparse", 16, 25, split=True)
         qs += _h2(v, 16 if v == "mux" else 12, split=True)
+    qs += _h("block", "pow2", 8, 18, split=True)
+    qs += _h("distributed", "pow2", 8, 18, split=True)
     qs += _h("block", "suite", 8, 16, split=True, cosim=500)
     qs += _h("distributed", "suite", 8, 16, split=True)
     for v, k, p in (("block", "dense", 32), ("distributed", "sparse", 32), ("block", "sparse", 64), ("distributed", "dense", 64)):
